@@ -15,12 +15,14 @@ from pathlib import Path
 from . import core
 from .core import VERIF, Harness, HarnessResult, Undecided, Unit
 
-EVID = VERIF / "evidence"
-REPLAYS = VERIF / "replays"
+EVID = Path(os.environ.get("VERIF_EVIDENCE_DIR", VERIF / "evidence"))
+REPLAYS = Path(os.environ.get("VERIF_REPLAY_DIR", VERIF / "replays"))
+LOGS = Path(os.environ.get("VERIF_LOG_DIR", VERIF / "logs"))
 KNOWN = VERIF / "known_findings.json"
 
 
 LOAD_ERRORS = []
+BACKEND_GROUPS = {"paseto-v1": "v1", "paseto-v2": "v2", "paseto-v3": "v3", "paseto-v3-aws-lc": "awslc", "paseto-v4": "v4", "paseto-v4-sodium": "v4s"}
 
 
 def load_units() -> dict:
@@ -39,6 +41,9 @@ def load_units() -> dict:
             for h in u.harnesses:
                 h.path = h.path or u.harness_path
                 h.unit = u.name
+            # all units of one backend crate share one scratch workspace and one build
+            if not u.group and u.kind == "kani" and not u.harness_crate and u.package in BACKEND_GROUPS:
+                u.group = BACKEND_GROUPS[u.package]
             units[u.name] = u
     return units
 
@@ -185,13 +190,13 @@ def main(argv=None):
         return 2
     units = load_units()
     known = json.loads(KNOWN.read_text()) if KNOWN.exists() else {"known": [], "fixed": []}
-    logdir = VERIF / "logs" / f"{prop}-{tier}"
+    logdir = LOGS / f"{prop}-{tier}"
     if logdir.exists():
         import shutil
         shutil.rmtree(logdir, ignore_errors=True)
     logdir.mkdir(parents=True, exist_ok=True)
-    EVID.mkdir(exist_ok=True)
-    REPLAYS.mkdir(exist_ok=True)
+    EVID.mkdir(parents=True, exist_ok=True)
+    REPLAYS.mkdir(parents=True, exist_ok=True)
 
     # select harnesses
     cap = int(os.environ.get("VERIF_QUICK_CAP", "4"))
